@@ -66,10 +66,27 @@ func runRoundtrip(payload string) string {
 	if err != nil {
 		return "harness-error value: " + err.Error()
 	}
+	// with an empty atlas the atlas-less entry points say the same thing: taken in rotation
+	// (refmt.Marshal / refmt.NewMarshaller / cbor.Marshal, json.Marshal; the Unmarshal side likewise)
+	plain := len(ad.entries) == 0 && ad.mode == 0
+	route := len(payload) % 4
 	var bs []byte
 	merr, mp := safely(func() error {
 		var e error
-		bs, e = refmt.MarshalAtlased(encOpts(fmtc, line, indent), v.Interface(), atl)
+		switch {
+		case plain && route == 1:
+			bs, e = refmt.Marshal(encOpts(fmtc, line, indent), v.Interface())
+		case plain && route == 2:
+			var buf bytes.Buffer
+			e = refmt.NewMarshaller(encOpts(fmtc, line, indent), &buf).Marshal(v.Interface())
+			bs = buf.Bytes()
+		case plain && route == 3 && fmtc == "c":
+			bs, e = cbor.Marshal(v.Interface())
+		case plain && route == 3 && line == nil && indent == nil:
+			bs, e = json.Marshal(v.Interface())
+		default:
+			bs, e = refmt.MarshalAtlased(encOpts(fmtc, line, indent), v.Interface(), atl)
+		}
 		return e
 	})
 	if mp {
@@ -80,6 +97,16 @@ func runRoundtrip(payload string) string {
 	}
 	target := reflect.New(t.rt)
 	uerr, up := safely(func() error {
+		switch {
+		case plain && route == 1:
+			return refmt.Unmarshal(decOpts(fmtc), bs, target.Interface())
+		case plain && route == 2:
+			return refmt.NewUnmarshaller(decOpts(fmtc), bytes.NewReader(bs)).Unmarshal(target.Interface())
+		case plain && route == 3 && fmtc == "c":
+			return cbor.Unmarshal(cbor.DecodeOptions{}, bs, target.Interface())
+		case plain && route == 3:
+			return json.Unmarshal(bs, target.Interface())
+		}
 		return refmt.UnmarshalAtlased(decOpts(fmtc), bs, target.Interface(), atl)
 	})
 	if up {
